@@ -273,7 +273,8 @@ func C13(c *Ctx) {
 		j := jobs[i]
 		res, out, outExists := run(j, j.flags)
 		c.Eval(1)
-		if outExists && res.Exit == 0 && bytes.Contains(out, []byte("old generated line")) {
+		// (with -x pigeon only parses and never opens the output, so an older file stays as it is)
+		if outExists && res.Exit == 0 && !hasFlag(j.flags, "-x") && bytes.Contains(out, []byte("old generated line")) {
 			c.Report(&Violation{Class: "C13/stale-output", Summary: fmt.Sprintf("pigeon -o wrote over an existing longer file and left part of the old content behind (exit 0, %d bytes in the file); flags %v; text %q", len(out), j.flags, truncBytes(j.text, 300)),
 				Grammar: string(j.text), Flags: j.flags, Input: j.text})
 		}
